@@ -65,6 +65,32 @@ def _engine_oracle(m, drv, strict_matters=True):
     return None
 
 
+def _written_indent_oracle(m):
+    """C05 on a model / code disagreement, from the document as written (sec_engine.written_indent_overflow)"""
+    from common import parse_sx
+    import sec_engine
+    if 'impl' not in m or 'doc' not in m or m['impl'].startswith('(error'):
+        return None
+    try:
+        sd = parse_sx(m['impl'])[0]
+    except Exception:
+        return None
+    lines, cur = [], [0, '']
+    for it in sd[1:]:
+        if it[0] == 'l':
+            lines.append(cur)
+            cur = [int(it[1]), '']
+        elif it[0] == 't':
+            cur[1] += ''.join(chr(int(c)) for c in it[1:])
+    lines.append(cur)
+    r = sec_engine.written_indent_overflow(m['doc'], int(m['w']), int(m['rw']), lines)
+    if r is None:
+        return None
+    return {'kind': 'engine-flat-overflow', 'doc': m['doc'], 'w': m['w'], 'frac': m['frac'], 'rw': m['rw'], 'smart': m['smart'],
+            'detail': r, 'what': 'a group laid out flat sits on a line that exceeds the page width or the ribbon measured from the indentation the '
+                                  'group has in the document as written'}
+
+
 def engine_section(classic=False, oracle='C04'):
     def run(tier, seed, rep):
         import sec_engine
@@ -75,6 +101,8 @@ def engine_section(classic=False, oracle='C04'):
             try:
                 for m in mism[:200]:
                     f = _engine_oracle(m, drv)
+                    if f is None and oracle == 'C05':
+                        f = _written_indent_oracle(m)
                     if f is not None:
                         fails.append(f)
                         if len(fails) >= 3:
@@ -200,7 +228,7 @@ REGISTRY = {
     'C05': {
         'theorems': ['PP.C05.rest_of_line', 'PP.C05.flat_iff_fits', 'PP.sim', 'PP.fitsE_mono', 'PP.fitsFast_eq_fitsE', 'PP.smart_imp_fast'],
         'modules': ENGINE_MODULES + ['PP.Proofs.FitsE', 'PP.Proofs.Sim', 'PP.Props.C05'],
-        'sections': [{'name': 'engine-classic', 'run': engine_section(classic=True)},
+        'sections': [{'name': 'engine-classic', 'run': engine_section(classic=True, oracle='C05')},
                      {'name': 'flat-overflow-oracle', 'run': oracle_sec('C05')}],
         'replay': engine_replay,
         'rule': 'classic-algebra engine correspondence + the flat-group overflow oracle evaluated on the implementation (group decisions recorded by passing a recording fitting predicate to best_layout)',
